@@ -11,7 +11,7 @@ import Gonuts.Model.Token
                | (v4 (("idhex" (proofv4…))…) "memo" "mint" "unit")
 
     token.newv3  (proof…) "mint" UNIT BOOL      -> (ok token) | (err KIND)
-    token.newv4  (proof…) "mint" UNIT BOOL      -> (ok token) with the groups in insertion order of the Go map model
+    token.newv4  (proof…) "mint" UNIT BOOL      -> (ok token) with the groups sorted by their rendering
                                                    | (err KIND DETAIL…); for `invalid-keyset-id` every candidate
                                                    detail is listed (which key Go meets first is unspecified)
     token.access token                          -> ((proofs (proof…)) (mint "…") | (mint panic IDX LEN)) (amount N))
@@ -104,6 +104,14 @@ def ofToken : Token → Sexp
       .list (t.tokenProofs.map fun g => .list [ofBytes g.id, .list (g.proofs.map ofProof4)]),
       .str t.memo, .str t.mintURL, .str t.unit]
 
+/-- `NewTokenV4` answer: the group order of the Go code comes from map iteration, so both sides compare the
+    groups sorted by their rendering (pure ASCII, hence the same order in Go and Lean). -/
+def ofV4Sorted (t : TokenV4) : Sexp :=
+  let gs : List Sexp := t.tokenProofs.map fun g => .list [ofBytes g.id, .list (g.proofs.map ofProof4)]
+  let keyed := gs.map fun g => (g.render, g)
+  let sorted := keyed.mergeSort (fun a b => decide (a.1 ≤ b.1))
+  .list [.atom "v4", .list (sorted.map (·.2)), .str t.memo, .str t.mintURL, .str t.unit]
+
 def ofHexErr : HexErr → List Sexp
   | .oddLength => [.atom "odd"]
   | .invalidByte b => [.atom "byte", Sexp.ofNat b.toNat]
@@ -152,7 +160,7 @@ def handle (cmd : String) (args : List Sexp) : Option Sexp :=
       | .error h => some (.list (ofHexErr h))
       | .ok _ => none
     match newV4With (fun m => m.keys) ps mint unit dleq with
-    | .ok t => some (.list [.atom "ok", ofToken (.v4 t)])
+    | .ok t => some (.list [.atom "ok", ofV4Sorted t])
     | .error (.invalidKeysetId _) =>
       match buildMap dleq ps [] with
       | .ok m => some (.list ([.atom "err", .atom "invalid-keyset-id"] ++ bad m))
